@@ -107,13 +107,21 @@ structure Inv (w : World) : Prop where
 theorem Inv_init (cfg : Cfg) : Inv (World.init cfg) := by
   constructor
   · intro e he
-    simp [World.init] at he
-    subst he
-    simp [World.init, getO]
+    simp only [World.init, initObjs] at he ⊢
+    cases hs : cfg.simul
+    · simp only [hs, Bool.false_eq_true, if_false, List.mem_singleton] at he ⊢
+      subst he
+      simp [getO]
+    · simp only [hs, if_true, List.mem_cons, List.mem_singleton, List.not_mem_nil, or_false] at he ⊢
+      rcases he with he | he <;> subst he <;> simp [getO, masterOid, simulOid]
   · intro e he
-    simp [World.init] at he
-    subst he
-    simp
+    simp only [World.init, initObjs] at he
+    cases hs : cfg.simul
+    · simp only [hs, Bool.false_eq_true, if_false, List.mem_singleton] at he
+      subst he
+      simp
+    · simp only [hs, if_true, List.mem_cons, List.mem_singleton, List.not_mem_nil, or_false] at he
+      rcases he with he | he <;> subst he <;> simp
 
 theorem Inv_setO {w : World} (h : Inv w) (o : Obj) (ho : o.uid ≠ none) (w1 : World) (hw1 : w1.objs = setO w.objs o) :
     Inv w1 := by
@@ -143,6 +151,7 @@ structure StepOK (bb : Option Name) (P : List Obj) (w1 : World) (r : StepRec) : 
   noeuid : noEuidClause P r = true
   exportc : exportClause P r = true
   asked : askedClause P r = true
+  bind : bindClause r = true
 
 theorem crashes_false {cs : List Creation} {S : List Obj} (hS : ∀ e ∈ S, e.uid ≠ none)
     (M : ∀ c ∈ cs, ∀ m, c.made = some m → getO S m.oid = some m) : crashes cs S = false := by
